@@ -306,9 +306,14 @@ def _r124(ctx: Ctx) -> None:
     ctx.need(fn is not None, 'R12.4', site_of(mi, ci.node), 'BatchSimulation._run not found')
     site = site_of(mi, fn)
     configs = []
-    for n_trials in (1, 4, 6):
-        for loaded in ((0, 0), (2, 2), (1, 3), (3, 0), (n_trials, n_trials), (n_trials + 2, 1)):
-            for sf in (1, 2, 3):
+    targets = (1, 2, 3, 4, 6, 9) if ctx.tier == 'thorough' else (1, 4, 6)
+    for n_trials in targets:
+        loads = [(0, 0), (2, 2), (1, 3), (3, 0), (n_trials, n_trials), (n_trials + 2, 1)]
+        if ctx.tier == 'thorough':
+            loads += [(0,), (0, 1, 2), (n_trials - 1, 0, n_trials + 1), (5, 5, 5)]
+            loads = [tuple(max(0, x) for x in l) for l in loads]
+        for loaded in loads:
+            for sf in ((1, 2, 3, 4, 7) if ctx.tier == 'thorough' else (1, 2, 3)):
                 configs.append((n_trials, loaded, sf))
     n_bad = 0
     first_bad = None
